@@ -33,3 +33,10 @@ VARIANTS = [
                                                 "                        elif M <= 0:\n                            sign = 'negative' if M < 0 else 'non-positive'\n                            sign_constraint = SignConstraint(sign)\n                        elif m >= 0:\n                            sign = 'positive' if m > 0 else 'non-negative'\n                            sign_constraint = SignConstraint(sign)"),
       kind='refactor'),
 ]
+
+VARIANTS += [
+    M('C07', 'lengths-from-backend-length', E(BC, "                        m = min(L)\n                        M = max(L)\n                        min_length_constraint = MinLengthConstraint(m)", "                        m = int(self.calc_min_length(fieldname))\n                        M = max(L)\n                        min_length_constraint = MinLengthConstraint(m)"),
+      rule='C07-LENCHARS', key='MinLengthConstraint'),
+    M('C07', 'class-level-type-memo', E(DR, "    def get_database_column_type(self, tablename, colname):\n        typeMap = {", "    column_types = {}\n\n    def get_database_column_type(self, tablename, colname):\n        if (tablename, colname) in self.column_types:\n            return self.column_types[(tablename, colname)]\n        self.column_types[(tablename, colname)] = None\n        typeMap = {"),
+      rule='C07-NOSHARED', key='column_types'),
+]
